@@ -244,6 +244,10 @@ namespace vsym
     return SymReal::raw(mk_op(OP_SQRT, ia, 0), std::sqrt(x.sh));
   }
   inline SymReal sym_abs(const SymReal& x) { return (x < SymReal(0.0)) ? -x : x; }
+  // NaN marker: a reserved free variable; Math::isnan<SymReal> recognises exactly this node.  Code that (wrongly) lets the
+  // marker flow into a result makes the result depend on an unconstrained variable, which the solver refutes.
+  inline SymReal sym_nan() { return SymReal::var("__nan__", 12345.678); }
+  inline bool sym_isnan(const SymReal& x) { static int nid = sym_nan().id; return x.nid() == nid; }
 
   // ------------------------------------------------------------------ cases and obligations
   inline void begin_case(const std::string& name, const std::string& meta_json = "{}")
@@ -340,7 +344,8 @@ namespace FEAT { namespace Math {
   inline vsym::SymReal abs(vsym::SymReal x) { return vsym::sym_abs(x); }
   template<> inline vsym::SymReal eps<vsym::SymReal>() { return vsym::SymReal(std::numeric_limits<double>::epsilon()); }
   template<> inline bool isfinite<vsym::SymReal>(vsym::SymReal) { return true; }
-  template<> inline bool isnan<vsym::SymReal>(vsym::SymReal) { return false; }
+  template<> inline bool isnan<vsym::SymReal>(vsym::SymReal x) { return vsym::sym_isnan(x); }
+  template<> inline vsym::SymReal nan<vsym::SymReal>() { return vsym::sym_nan(); }
   template<> inline bool isnormal<vsym::SymReal>(vsym::SymReal x) { return std::isnormal(x.sh); }
 } }
 
